@@ -24,6 +24,7 @@ import (
 	"path/filepath"
 	"strconv"
 	"strings"
+	"sync"
 	"testing"
 	"time"
 
@@ -431,6 +432,10 @@ func newAPIWorld(t *testing.T, sim *verifsim.Sim, prop string, gpu apiGPU, maxRu
 
 	// package-level state a fresh process would start with
 	intermediateBlobs = make(map[string]string)
+	// transfers that were in flight when an earlier run ended must not be found by this one
+	// (their channels belong to another bubble)
+	blobDownloadManager = sync.Map{}
+	blobUploadManager = sync.Map{}
 
 	gin.SetMode(gin.TestMode)
 	gin.DefaultWriter = io.Discard
